@@ -12,6 +12,7 @@ import (
 
 	"golang.org/x/tools/go/ssa"
 
+	"hzcheck/core"
 	"hzcheck/esp"
 	"hzcheck/zone"
 )
@@ -128,6 +129,59 @@ func c18Drain(e *Env) {
 		})
 	}
 	r.Floor(rule, n, 1, "ReleaseBodyStream calls in the serve loop")
+	// the drain comes before every exit that can leave the connection open: between the flush of
+	// the response and the drain, the only returns are error exits (`if err != nil { return }`,
+	// also as `if err = f(); err != nil`), after which the connection is closed
+	{
+		info := serve.Pkg.TypesInfo
+		par := parents(serve.Decl)
+		fname := w.FuncName(serve.Obj)
+		var release, lastFlush token.Pos
+		ast.Inspect(serve.Decl.Body, func(nd ast.Node) bool {
+			if c, ok := nd.(*ast.CallExpr); ok {
+				if f := calleeOf(info, c); f != nil {
+					if esp.Is(f, pkgExt, "", "ReleaseBodyStream") && !release.IsValid() {
+						release = c.Pos()
+					}
+				}
+			}
+			return true
+		})
+		if release.IsValid() {
+			ast.Inspect(serve.Decl.Body, func(nd ast.Node) bool {
+				if c, ok := nd.(*ast.CallExpr); ok && c.Pos() < release {
+					if f := calleeOf(info, c); f != nil && f.Name() == "Flush" {
+						if _, inLit := enclosing(par, c, func(m ast.Node) bool { _, ok := m.(*ast.FuncLit); return ok }).(*ast.FuncLit); !inLit && c.Pos() > lastFlush {
+							lastFlush = c.Pos()
+						}
+					}
+				}
+				return true
+			})
+			k := 0
+			ast.Inspect(serve.Decl.Body, func(nd ast.Node) bool {
+				if _, isLit := nd.(*ast.FuncLit); isLit {
+					return false
+				}
+				rs, ok := nd.(*ast.ReturnStmt)
+				if !ok || !lastFlush.IsValid() || rs.Pos() < lastFlush || rs.Pos() > release {
+					return true
+				}
+				k++
+				errExit := false
+				for _, g := range guardConds(par, rs) {
+					if g.cond != nil && !g.neg {
+						if isErr, isNil := errNilCond(info, g.cond, true); isErr && !isNil {
+							errExit = true
+						}
+					}
+				}
+				r.Check(errExit, rule, fmt.Sprintf("%s:return-before-drain#%d", fname, k), w.Pos(rs.Pos()), "between the response flush and the drain only error exits leave the loop",
+					"this return leaves Serve after the response was flushed but before the unread rest of a streamed body is drained, and not on an error path: where the transport calls Serve again for the same connection (netpoll with IdleTimeout 0) the leftover body bytes are parsed as the next request")
+				return true
+			})
+		}
+	}
 }
 
 // C19.idle — every request after the first waits for its first bytes before the tracer starts.
@@ -508,28 +562,76 @@ func c14Identity(e *Env) {
 		return x
 	}
 	cmpKeyS := func(x ast.Expr, neg bool) (string, bool) { return cmpKey(subst(x), neg) }
-	// the too-large test: condition of an if whose body returns a too-large error
+	// conjunction atoms of a condition (or of its negation): `a && b`, `!(a || b)` …; ok is
+	// false when the formula is not a pure conjunction
+	type atom struct {
+		x   ast.Expr
+		neg bool
+	}
+	var atoms func(x ast.Expr, neg bool) ([]atom, bool)
+	atoms = func(x ast.Expr, neg bool) ([]atom, bool) {
+		x = unparen(x)
+		switch y := x.(type) {
+		case *ast.UnaryExpr:
+			if y.Op == token.NOT {
+				return atoms(y.X, !neg)
+			}
+		case *ast.BinaryExpr:
+			if (y.Op == token.LAND && !neg) || (y.Op == token.LOR && neg) {
+				a, ok1 := atoms(y.X, neg)
+				b, ok2 := atoms(y.Y, neg)
+				return append(a, b...), ok1 && ok2
+			}
+			if y.Op == token.LAND || y.Op == token.LOR {
+				return nil, false
+			}
+		}
+		return []atom{{x, neg}}, true
+	}
+	// the too-large test: an if (without else) whose body returns or assigns a too-large error;
+	// its condition is a conjunction containing one comparison
 	var tl ast.Expr
+	tlNeg := false
 	ast.Inspect(fi.Decl.Body, func(nd ast.Node) bool {
 		is, ok := nd.(*ast.IfStmt)
 		if !ok || is.Else != nil {
 			return true
 		}
-		for _, s := range is.Body.List {
-			if rs, ok := s.(*ast.ReturnStmt); ok && mentionsVar(info, rs, tooLarge) {
-				if _, isCmp := cmpKeyS(is.Cond, false); isCmp {
-					tl = is.Cond
+		hit := false
+		for _, st := range is.Body.List {
+			switch y := st.(type) {
+			case *ast.ReturnStmt:
+				hit = hit || mentionsVar(info, y, tooLarge)
+			case *ast.AssignStmt:
+				for _, rh := range y.Rhs {
+					hit = hit || mentionsVar(info, rh, tooLarge)
+				}
+			}
+		}
+		if !hit {
+			return true
+		}
+		if as, ok := atoms(is.Cond, false); ok {
+			for _, a := range as {
+				if _, isCmp := cmpKeyS(a.x, a.neg); isCmp {
+					tl, tlNeg = a.x, a.neg
 				}
 			}
 		}
 		return true
 	})
 	if tl == nil {
-		r.Anchor(rule, fname+": `if <length> > <limit> { return …, errBodyTooLarge }`")
+		r.Anchor(rule, fname+": `if <length> > <limit> { … errBodyTooLarge }`")
 		return
 	}
-	want, _ := cmpKeyS(tl, true)
-	// the selection: if/else whose arms call two different same-package readers
+	want, _ := cmpKeyS(tl, !tlNeg)
+	// the reader that reads until the limit is exceeded mentions the too-large error itself
+	isIdentity := func(f *types.Func) bool {
+		d := w.DeclOf(f)
+		return d != nil && d.Decl.Body != nil && mentionsVar(d.Pkg.TypesInfo, d.Decl.Body, tooLarge)
+	}
+	// the selection: if/else whose arms call two different same-package readers, one of them
+	// the identity reader
 	n := 0
 	ast.Inspect(fi.Decl.Body, func(nd ast.Node) bool {
 		is, ok := nd.(*ast.IfStmt)
@@ -549,26 +651,49 @@ func c14Identity(e *Env) {
 			return out
 		}
 		a, b := callIn(is.Body), callIn(is.Else)
-		if a == nil || b == nil || a == b {
+		if a == nil || b == nil || a == b || isIdentity(a) == isIdentity(b) {
 			return true
 		}
 		n++
+		// condition under which the fixed-size reader runs
+		fixed, ident, negate := a, b, false
+		if isIdentity(a) {
+			fixed, ident, negate = b, a, true
+		}
 		found := false
-		var conj func(x ast.Expr)
-		conj = func(x ast.Expr) {
-			x = unparen(x)
-			if be, ok := x.(*ast.BinaryExpr); ok && be.Op == token.LAND {
-				conj(be.X)
-				conj(be.Y)
-				return
-			}
-			if k, ok := cmpKeyS(x, false); ok && k == want {
+		as, pure := atoms(is.Cond, negate)
+		for _, at := range as {
+			if k, ok := cmpKeyS(at.x, at.neg); ok && k == want {
 				found = true
 			}
 		}
-		conj(is.Cond)
-		r.Check(found, rule, fmt.Sprintf("%s:reader-selection#%d", fname, n), w.Pos(is.Pos()), "the fixed-size reader is selected exactly when the body is not too large",
-			fmt.Sprintf("the condition `%s` that selects %s has no conjunct equivalent to `!(%s)` (canonical: %s): for a length the too-large test accepts, %s — which reads until it holds more than the limit — consumes bytes behind the body", types.ExprString(is.Cond), a.Name(), types.ExprString(tl), want, b.Name()))
+		// second clause: a declared length always goes to the fixed-size reader. The identity
+		// reader copies whatever is buffered, up to the capacity of the (pooled, possibly grown)
+		// destination, before it looks at the limit — for a declared length larger than the limit
+		// that can include the bytes behind the body, i.e. the next pipelined request.
+		onlyDeclared := pure
+		extra := ""
+		for _, at := range as {
+			x := unparen(at.x)
+			be, isBin := x.(*ast.BinaryExpr)
+			isLenTest := false
+			if isBin {
+				if c, isC := constInt(info, be.Y); isC && (c == 0 || c == -1) {
+					isLenTest = true
+				}
+				if c, isC := constInt(info, be.X); isC && (c == 0 || c == -1) {
+					isLenTest = true
+				}
+			}
+			if !isLenTest {
+				onlyDeclared = false
+				extra = types.ExprString(at.x)
+			}
+		}
+		r.Check(onlyDeclared, rule, fmt.Sprintf("%s:reader-selection#%d:declared-length-fixed", fname, n), w.Pos(is.Pos()), "every declared length is prefetched with the fixed-size reader",
+			fmt.Sprintf("the fixed-size reader %s also requires `%s`: a body with a declared length that fails it is prefetched by %s, which takes everything buffered up to cap(dst) — with a pooled buffer larger than the body that includes the start of the next pipelined request", fixed.Name(), extra, ident.Name()))
+		r.Check(pure && found, rule, fmt.Sprintf("%s:reader-selection#%d", fname, n), w.Pos(is.Pos()), "the fixed-size reader is selected exactly when the body is not too large",
+			fmt.Sprintf("the condition under which %s runs (from `%s`) is not a conjunction containing `!(%s)` (canonical: %s): for a length the too-large test accepts, %s — which reads until it holds more than the limit — consumes bytes behind the body", fixed.Name(), types.ExprString(is.Cond), types.ExprString(tl), want, ident.Name()))
 		return true
 	})
 	r.Floor(rule, n, 1, "reader selections in "+fname)
@@ -584,7 +709,21 @@ func c14SkipBound(e *Env) {
 		r.Anchor(rule, "ext.bodyStream.skipRest")
 		return
 	}
+	n := 0
+	z := getZone(w)
+	// the counting loop may live in skipRest itself or in a same-package helper it calls
+	for _, hf := range withHelpers(w, fi, 1) {
+		c14SkipBoundIn(w, r, z, hf, &n)
+	}
+	r.Floor(rule, n, 1, "Skip calls whose amount is subtracted from a remaining-length counter in "+w.FuncName(fi.Obj)+" (and its helpers)")
+}
+
+func c14SkipBoundIn(w *core.World, r *core.Report, z *zoneCtx, fi *core.FuncInfo, total *int) {
+	const rule = "C14.skipbound"
 	fn := w.SSAFunc(fi)
+	if fn == nil {
+		return
+	}
 	fname := w.FuncName(fi.Obj)
 	// counter for an amount: X of a `X - amount` whose result feeds a phi that X comes from
 	counterOf := map[ssa.Value]ssa.Value{}
@@ -601,7 +740,9 @@ func c14SkipBound(e *Env) {
 			}
 		}
 	}
-	z := getZone(w)
+	if len(counterOf) == 0 {
+		return
+	}
 	n := 0
 	opts := zone.Options{
 		Custom: func(a *zone.Analyzer, d *zone.DBM, ins ssa.Instruction) {
@@ -621,7 +762,7 @@ func c14SkipBound(e *Env) {
 	}
 	z.prog.Analyze(fn, opts)
 	r.Unit("%s: %s — %d counted Skip calls", rule, fname, n)
-	r.Floor(rule, n, 1, "Skip calls whose amount is subtracted from a remaining-length counter in "+fname)
+	*total += n
 }
 
 // C20.pure — evaluating a cached expression tree does not write to the tree.
@@ -937,4 +1078,433 @@ func c12Fresh(e *Env) {
 		}
 		return field == "" || field == "handlers" || field == "index" || field == "fullPath"
 	})
+}
+
+// C13.copynode — the node ReadFrom copies into is one that Flush empties again.
+func c13CopyNode(e *Env) {
+	const rule = "C13.copynode"
+	w, r := e.W, e.R
+	r.Explainf("C13.copynode: standard.Conn.ReadFrom (the body path of every response on a connection that is not an io.ReaderFrom, e.g. TLS) fills one output node in a loop and relies on Flush to empty it when it is full; Flush only resets recyclable nodes (capacity ≤ 8 KiB). When the current node is not recyclable, ReadFrom asks Malloc for a block — but Malloc hands out the REST OF THE CURRENT NODE whenever the free length it tracks exceeds the request (its reuse branch `outputBuffer.len > n`). Rule: in the branch of ReadFrom taken when the node is not recyclable, the Malloc call is preceded by an assignment of 0 to the field Malloc's reuse branch compares, so that a fresh (recyclable) node is linked. Otherwise, after a header block of 8–12 KiB (or > 16 KiB) the copy loop keeps the big node, Flush never resets it, the loop reads into an empty slice and the response ends with io.ErrNoProgress after 16384 body bytes.")
+	rf := w.Func("pkg/network/standard", "Conn", "ReadFrom")
+	ml := w.Func("pkg/network/standard", "Conn", "Malloc")
+	if rf == nil || ml == nil {
+		r.Anchor(rule, "standard.Conn.ReadFrom / Malloc")
+		return
+	}
+	info := rf.Pkg.TypesInfo
+	// Malloc's reuse branch: if <recv>.<…>.F > n { … return … }
+	var freeLen *types.Var
+	sig := ml.Obj.Type().(*types.Signature)
+	ast.Inspect(ml.Decl.Body, func(n ast.Node) bool {
+		is, ok := n.(*ast.IfStmt)
+		if !ok || freeLen != nil {
+			return true
+		}
+		lo, hi, isLess := normLess(is.Cond)
+		if !isLess || sig.Params().Len() == 0 || usedVar(info, lo) != sig.Params().At(0) {
+			return true
+		}
+		returns := false
+		for _, s := range is.Body.List {
+			if _, isRet := s.(*ast.ReturnStmt); isRet {
+				returns = true
+			}
+		}
+		if f := usedVar(info, hi); returns && f != nil && f.IsField() {
+			freeLen = f
+		}
+		return true
+	})
+	if freeLen == nil {
+		r.Anchor(rule, "the reuse branch `if c.outputBuffer.len > n { … return }` of standard.Conn.Malloc")
+		return
+	}
+	fname := w.FuncName(rf.Obj)
+	n := 0
+	ast.Inspect(rf.Decl.Body, func(nd ast.Node) bool {
+		is, ok := nd.(*ast.IfStmt)
+		if !ok {
+			return true
+		}
+		mentionsRecyclable := false
+		ast.Inspect(is.Cond, func(m ast.Node) bool {
+			if c, ok := m.(*ast.CallExpr); ok {
+				if f := calleeOf(info, c); f != nil && f.Name() == "recyclable" {
+					mentionsRecyclable = true
+				}
+			}
+			return true
+		})
+		if !mentionsRecyclable {
+			return true
+		}
+		zeroed := false
+		for _, s := range is.Body.List {
+			if as, ok := s.(*ast.AssignStmt); ok && len(as.Lhs) == 1 && len(as.Rhs) == 1 && usedVar(info, as.Lhs[0]) == freeLen {
+				if c, isC := constInt(info, as.Rhs[0]); isC && c == 0 {
+					zeroed = true
+				}
+			}
+			var call *ast.CallExpr
+			ast.Inspect(s, func(m ast.Node) bool {
+				if c, ok := m.(*ast.CallExpr); ok && calleeOf(info, c) == ml.Obj && call == nil {
+					call = c
+				}
+				return call == nil
+			})
+			if call != nil {
+				n++
+				r.Check(zeroed, rule, fmt.Sprintf("%s:Malloc#%d:fresh-node", fname, n), w.Pos(call.Pos()), "a fresh node is linked when the current one is not recyclable",
+					fmt.Sprintf("`%s` is not preceded by `%s = 0`: Malloc's reuse branch hands out the rest of the current non-recyclable node, Flush never resets it, and the copy loop ends with io.ErrNoProgress once it is full", types.ExprString(call), freeLen.Name()))
+			}
+		}
+		return true
+	})
+	if n == 0 {
+		r.OK(rule, fname+":no-malloc-under-recyclable-test", w.Pos(rf.Decl.Pos()), "ReadFrom does not obtain its copy node through Malloc")
+	}
+}
+
+// C10.rewind — a request whose body is a stream is never sent a second time.
+func c10Rewind(e *Env) {
+	const rule = "C10.rewind"
+	w, r := e.W, e.R
+	r.Explainf("C10.rewind: sending a request consumes and closes its body stream (req.writeBodyStream ends with CloseBodyStream), so after the first attempt Request.IsBodyStream() is false and a retry predicate that asks it then (client.DefaultRetryIf does) approves a retry that would go out with an EMPTY body. In every function that invokes HostClient.do in a loop, a bool local is assigned from Request.IsBodyStream() BEFORE the loop, and every back edge that re-invokes the exchange is taken only on a branch on which that local is known to be false, or after a user-supplied predicate (a value of type client.RetryIfFunc, which owns the retry decision and may re-arm the body) approved it (ESP typestate: fresh → attempted → not-a-stream | custom-approved → attempted …).")
+	do := w.Func("pkg/protocol/http1", "HostClient", "do")
+	if do == nil {
+		// the thin wrapper was inlined into its caller: the exchange itself plays the role
+		do = w.Func("pkg/protocol/http1", "HostClient", "doNonNilReqResp")
+	}
+	if do == nil {
+		r.Anchor(rule, "HostClient.do")
+		return
+	}
+	fns := funcsCalling(w, func(f *types.Func) bool { return f == do.Obj })
+	r.Floor(rule, len(fns), 1, "functions invoking HostClient.do")
+	for _, fi := range fns {
+		info := fi.Pkg.TypesInfo
+		fname := w.FuncName(fi.Obj)
+		var doCall *ast.CallExpr
+		var loop *ast.ForStmt
+		par := parents(fi.Decl)
+		ast.Inspect(fi.Decl.Body, func(n ast.Node) bool {
+			if c, ok := n.(*ast.CallExpr); ok && calleeOf(info, c) == do.Obj {
+				doCall = c
+				if l, _ := enclosing(par, c, func(m ast.Node) bool { _, ok := m.(*ast.ForStmt); return ok }).(*ast.ForStmt); l != nil {
+					loop = l
+				}
+			}
+			return true
+		})
+		if doCall == nil || loop == nil {
+			r.OK(rule, fname+":no-loop", w.Pos(fi.Decl.Pos()), "the exchange is not re-invoked in a loop")
+			continue
+		}
+		// bool local captured from IsBodyStream() before the loop
+		var flag *types.Var
+		ast.Inspect(fi.Decl.Body, func(n ast.Node) bool {
+			as, ok := n.(*ast.AssignStmt)
+			if !ok || as.Pos() >= loop.Pos() || len(as.Lhs) != 1 || len(as.Rhs) != 1 {
+				return true
+			}
+			if c, ok := unparen(as.Rhs[0]).(*ast.CallExpr); ok {
+				if f := calleeOf(info, c); f != nil && f.Name() == "IsBodyStream" {
+					if v := usedVar(info, as.Lhs[0]); v != nil && !v.IsField() {
+						flag = v
+					}
+				}
+			}
+			return true
+		})
+		if flag == nil {
+			r.Fail(rule, fname+":stream-flag", w.Pos(loop.Pos()), "the body-stream test that vetoes a re-send is captured before the first attempt",
+				"no local is assigned from Request.IsBodyStream() before the retry loop: after the first attempt the stream has been consumed and closed, IsBodyStream() is false, and the idempotent-method retry (connection closed by the peer while pooled) re-sends the request with an empty body")
+			continue
+		}
+		// polarity of the flag inside a condition: +1 flag true, -1 flag false, 0 unknown
+		var walk func(x ast.Expr, pol int) int
+		walk = func(x ast.Expr, pol int) int {
+			switch y := unparen(x).(type) {
+			case *ast.Ident:
+				if info.ObjectOf(y) == types.Object(flag) {
+					return pol
+				}
+			case *ast.UnaryExpr:
+				if y.Op == token.NOT {
+					return walk(y.X, -pol)
+				}
+			case *ast.BinaryExpr:
+				if (y.Op == token.LAND && pol > 0) || (y.Op == token.LOR && pol < 0) {
+					if a := walk(y.X, pol); a != 0 {
+						return a
+					}
+					return walk(y.Y, pol)
+				}
+			}
+			return 0
+		}
+		retryT := w.Named("pkg/protocol/client", "RetryIfFunc")
+		var walkCustom func(x ast.Expr, pol int) int
+		walkCustom = func(x ast.Expr, pol int) int {
+			switch y := unparen(x).(type) {
+			case *ast.CallExpr:
+				if calleeOf(info, y) == nil && retryT != nil {
+					if n, ok := info.TypeOf(y.Fun).(*types.Named); ok && n.Obj() == retryT.Obj() {
+						return pol
+					}
+				}
+			case *ast.UnaryExpr:
+				if y.Op == token.NOT {
+					return walkCustom(y.X, -pol)
+				}
+			case *ast.BinaryExpr:
+				if (y.Op == token.LAND && pol > 0) || (y.Op == token.LOR && pol < 0) {
+					if a := walkCustom(y.X, pol); a != 0 {
+						return a
+					}
+					return walkCustom(y.Y, pol)
+				}
+			}
+			return 0
+		}
+		rl := &esp.Rule{Name: rule, Init: "fresh",
+			Call: func(c *esp.Ctx, call *ast.CallExpr, f *types.Func) {
+				if f == do.Obj {
+					c.S.TS = "attempted"
+				}
+			},
+			Branch: func(c *esp.Ctx, cond ast.Expr, val bool) {
+				if c.S.TS != "attempted" {
+					return
+				}
+				pol := 0
+				if val {
+					pol = walk(cond, 1)
+				} else {
+					pol = walk(cond, -1)
+				}
+				if pol < 0 {
+					c.S.TS = "not-a-stream"
+					return
+				}
+				// a user-supplied retry predicate (a value of type client.RetryIfFunc) that said yes:
+				// the application has taken over the retry decision, including re-arming the body
+				cp := 0
+				if val {
+					cp = walkCustom(cond, 1)
+				} else if walkCustom(cond, 1) < 0 {
+					cp = 1
+				}
+				if cp > 0 {
+					c.S.TS = "custom-approved"
+				}
+			},
+			BackEdge: func(c *esp.Ctx, from, to *cfg.Block) {
+				if to.Stmt == nil || !within(doCall, to.Stmt) {
+					return
+				}
+				if c.S.TS == "attempted" {
+					c.Violate(to.Stmt.Pos(), fname+":resend-of-stream", "the request is sent again on a path that did not establish `"+flag.Name()+" == false` since the last attempt: a request whose body stream was already consumed goes out with an empty body")
+				}
+			},
+		}
+		ex := esp.New(w, fi, rl)
+		vs := ex.Run(fi)
+		r.Unit("%s: %s — flag %s, %d states, %d exits", rule, fname, flag.Name(), ex.Steps, ex.Exits)
+		if len(vs) == 0 {
+			r.OK(rule, fname+":paths", w.Pos(fi.Decl.Pos()), "every re-send happens only for a request that never had a body stream")
+		}
+		for _, v := range vs {
+			r.Fail(rule, v.Key, w.Pos(v.Pos), "a request with a body stream is sent at most once", v.Msg, v.Path...)
+		}
+	}
+}
+
+// C17.stale — a lazily parsed cache is read only while its validity flag says it is current.
+func c17Stale(e *Env) {
+	const rule = "C17.stale"
+	w, r := e.W, e.R
+	r.Explainf("C17.stale: protocol.URI keeps the query twice: the raw string and a parsed argument list filled lazily by a method of the shape `if u.<flag> { return }; u.<cache>.ParseBytes(u.<raw>); u.<flag> = true`. The setters of the raw string clear the flag, not the list. Every other method of the type that reads the cached list therefore does so only after calling the filler, or under a condition that tests the flag; Reset and CopyTo (which write flag and cache together) are exempt. A reader that only looks at the list's length serialises the query the application has just replaced (QueryArgs(); SetQueryString(\"b=2\"); RequestURI() still says a=1), so the string form no longer parses back to what was set.")
+	nt := w.Named("pkg/protocol", "URI")
+	if nt == nil {
+		r.Anchor(rule, "protocol.URI")
+		return
+	}
+	// the filler: a method whose first statement is `if recv.F { return }` for a bool field F and
+	// which later assigns F = true; the cache is the field whose method it calls in between
+	var filler *core.FuncInfo
+	var flag, cache *types.Var
+	for _, fi := range declaredNonTest(w) {
+		if fi.Decl.Body == nil || recvNamed(fi.Obj) != nt || len(fi.Decl.Body.List) < 3 {
+			continue
+		}
+		info := fi.Pkg.TypesInfo
+		is, ok := fi.Decl.Body.List[0].(*ast.IfStmt)
+		if !ok || len(is.Body.List) != 1 {
+			continue
+		}
+		if _, isRet := is.Body.List[0].(*ast.ReturnStmt); !isRet {
+			continue
+		}
+		f := usedVar(info, is.Cond)
+		if f == nil || !f.IsField() {
+			continue
+		}
+		var c *types.Var
+		setsTrue := false
+		for _, s := range fi.Decl.Body.List[1:] {
+			switch x := s.(type) {
+			case *ast.ExprStmt:
+				if call, ok := x.X.(*ast.CallExpr); ok {
+					if se, ok := unparen(call.Fun).(*ast.SelectorExpr); ok {
+						if v := usedVar(info, se.X); v != nil && v.IsField() && c == nil {
+							c = v
+						}
+					}
+				}
+			case *ast.AssignStmt:
+				if len(x.Lhs) == 1 && usedVar(info, x.Lhs[0]) == f {
+					if id, ok := unparen(x.Rhs[0]).(*ast.Ident); ok && id.Name == "true" {
+						setsTrue = true
+					}
+				}
+			}
+		}
+		if c != nil && setsTrue {
+			filler, flag, cache = fi, f, c
+		}
+	}
+	if filler == nil {
+		r.Anchor(rule, "the lazy query parser of protocol.URI (`if u.parsedQueryArgs { return } …`)")
+		return
+	}
+	r.Unit("%s: cache %s valid under %s, filled by %s", rule, cache.Name(), flag.Name(), w.FuncName(filler.Obj))
+	n := 0
+	for _, fi := range declaredNonTest(w) {
+		if fi.Decl.Body == nil || recvNamed(fi.Obj) != nt || fi == filler {
+			continue
+		}
+		info := fi.Pkg.TypesInfo
+		// methods that write the flag themselves keep flag and cache in step (Reset, CopyTo)
+		writesFlag := false
+		ast.Inspect(fi.Decl.Body, func(nd ast.Node) bool {
+			if as, ok := nd.(*ast.AssignStmt); ok {
+				for _, l := range as.Lhs {
+					if usedVar(info, l) == flag {
+						writesFlag = true
+					}
+				}
+			}
+			return true
+		})
+		par := parents(fi.Decl)
+		fname := w.FuncName(fi.Obj)
+		k := 0
+		var firstFill token.Pos
+		ast.Inspect(fi.Decl.Body, func(nd ast.Node) bool {
+			if c, ok := nd.(*ast.CallExpr); ok && calleeOf(info, c) == filler.Obj && !firstFill.IsValid() {
+				firstFill = c.Pos()
+			}
+			return true
+		})
+		ast.Inspect(fi.Decl.Body, func(nd ast.Node) bool {
+			se, ok := nd.(*ast.SelectorExpr)
+			if !ok || usedVar(info, se) != cache {
+				return true
+			}
+			k++
+			n++
+			key := fmt.Sprintf("%s:%s#%d", fname, cache.Name(), k)
+			desc := "the parsed query list is read only while it is current"
+			okUse := writesFlag || (firstFill.IsValid() && firstFill < se.Pos())
+			if !okUse {
+				for _, g := range guardConds(par, se) {
+					if g.cond != nil && !g.neg {
+						ast.Inspect(g.cond, func(m ast.Node) bool {
+							if x, ok := m.(ast.Expr); ok && usedVar(info, x) == flag {
+								okUse = true
+							}
+							return true
+						})
+					}
+				}
+				// `if u.flag && u.cache.Len() > 0`: the read sits in the condition itself, after the flag
+				for p := par[ast.Node(se)]; p != nil && !okUse; p = par[p] {
+					if be, ok := p.(*ast.BinaryExpr); ok && be.Op == token.LAND && within(se, be.Y) {
+						ast.Inspect(be.X, func(m ast.Node) bool {
+							if x, ok := m.(ast.Expr); ok && usedVar(info, x) == flag {
+								okUse = true
+							}
+							return true
+						})
+					}
+					if _, isStmt := p.(ast.Stmt); isStmt {
+						break
+					}
+				}
+			}
+			r.Check(okUse, rule, key, w.Pos(se.Pos()), desc,
+				fmt.Sprintf("%s reads %s without having called %s and without testing %s: after the raw query was replaced through a setter the list still holds the previous query", fname, cache.Name(), filler.Obj.Name(), flag.Name()))
+			return true
+		})
+	}
+	r.Floor(rule, n, 3, "reads of the parsed query list in methods of protocol.URI")
+	// where the list is serialised (an if whose body appends it), the condition consists of the
+	// validity flag and the emptiness test only: a further conjunct drops the arguments the
+	// application added through QueryArgs() whenever it is false
+	for _, fi := range declaredNonTest(w) {
+		if fi.Decl.Body == nil || recvNamed(fi.Obj) != nt {
+			continue
+		}
+		info := fi.Pkg.TypesInfo
+		fname := w.FuncName(fi.Obj)
+		k := 0
+		ast.Inspect(fi.Decl.Body, func(nd ast.Node) bool {
+			is, ok := nd.(*ast.IfStmt)
+			if !ok {
+				return true
+			}
+			serialises := false
+			ast.Inspect(is.Body, func(m ast.Node) bool {
+				if c, ok := m.(*ast.CallExpr); ok {
+					if se, ok := unparen(c.Fun).(*ast.SelectorExpr); ok && usedVar(info, se.X) == cache && (se.Sel.Name == "AppendBytes" || se.Sel.Name == "QueryString") {
+						serialises = true
+					}
+				}
+				return true
+			})
+			if !serialises {
+				return true
+			}
+			k++
+			bad := ""
+			var conj func(x ast.Expr)
+			conj = func(x ast.Expr) {
+				x = unparen(x)
+				if be, ok := x.(*ast.BinaryExpr); ok && be.Op == token.LAND {
+					conj(be.X)
+					conj(be.Y)
+					return
+				}
+				mentionsCache, mentionsFlag := false, false
+				ast.Inspect(x, func(m ast.Node) bool {
+					if y, ok := m.(ast.Expr); ok {
+						if v := usedVar(info, y); v == cache {
+							mentionsCache = true
+						} else if v == flag {
+							mentionsFlag = true
+						}
+					}
+					return true
+				})
+				if !mentionsCache && !mentionsFlag && bad == "" {
+					bad = types.ExprString(x)
+				}
+			}
+			conj(is.Cond)
+			r.Check(bad == "", rule, fmt.Sprintf("%s:serialise#%d", fname, k), w.Pos(is.Pos()), "the parsed query list is serialised whenever it is current and non-empty",
+				"the list is only written when `"+bad+"` also holds: arguments added through QueryArgs() vanish from RequestURI()/FullURI() and from the request line otherwise")
+			return true
+		})
+	}
 }
